@@ -402,14 +402,21 @@ class UDPL(VSchedCheck):
         return [(self.hbin, base), (self.hbin, base), (self.hbin, base + ["-mode", "conc"])]
 
     def model_entry_for(self, conf):
-        return None if conf.split()[:1] == ["9"] else self.model_entry
+        return "c12_replay" if conf.split()[:1] == ["9"] else self.model_entry
 
     def model_postprocess(self, line, model_obs):
-        # concurrent tier (conf 9 <seed>): the observation is the flag word of the implementation-side oracle and must be 0
-        return "0" if split3(line)[0].split()[:1] == ["9"] else model_obs
+        # concurrent tier (conf 9 <seed> <backlog>): the interleaving model replays the logged events and must end in the same state;
+        # the last observation is the flag word of the implementation-side oracle and must be 0
+        return model_obs + "|0" if split3(line)[0].split()[:1] == ["9"] else model_obs
+
+    def diff_is_failing_input(self, line):
+        c, _, ob = split3(line)
+        if c.split()[:1] == ["9"]:
+            return segs(ob)[-1].strip() != "0"     # a non-zero flag word; a replay mismatch alone is a broken correspondence
+        return True
 
     def failing_text(self):
-        return ("sequential tier: the implementation's answer differs from the model's; concurrent tier (configuration 9 <seed>, the real code "
+        return ("sequential tier: the implementation's answer differs from the model's; concurrent tier (configuration 9 <seed> <backlog>, the real code "
                 "stepped one synchronisation operation at a time): flags 1 socket closed while the listener or an accepted connection was still "
                 "open, 2 socket still open after everything was closed, 4 goroutine left, 8 Accept after Close, 16 connection handed out twice / two "
                 "open connections for one remote, 32 accepted open connection cannot send, 64 pending Read not released by Close, 128 Close "
@@ -417,7 +424,7 @@ class UDPL(VSchedCheck):
 
     def is_nontrivial(self, conf, ops, obs):
         if conf.split()[:1] == ["9"]:
-            return int(segs(ops)[0].split()[0]) >= 40
+            return len(segs(ops)) >= 25
         o = segs(obs)
         p = segs(ops)
         acc = sum(1 for a, b in zip(p, o) if a == "2" and b.startswith("0 "))
@@ -440,16 +447,25 @@ class C11(UDPL):
 
 class C12(UDPL):
     pid = "C12"
-    design_ref = "4 (C11/C12)"
-    technique = "Coq proof (reference-count invariant over all histories: socket closed iff listener closed and no accepted connection open) + differential correspondence check of the real Listen/Close code on an in-memory socket"
-    level_text = ("Coq theorems over all histories of arrivals/Accept/Read/Conn.Close/listener Close: the reference count equals (open listener) + "
-                  "queued + accepted-and-open connections, so the socket is closed exactly when the listener is closed and every accepted connection "
-                  "is closed - never earlier; Accept fails after Close; Close is idempotent. Tied to the code by differential histories in which every "
-                  "observation carries the socket's closed flag, and every history ends by closing everything in a random order")
-    level_note = ("partial: the theorems are about sequentially issued operations; interleavings of listener Close, Accept, connection Close, Read and "
-                  "arrivals are explored on the real code by the controlled scheduler (one synchronisation operation at a time, seeded schedules, the "
-                  "property checked on the implementation: this reports the window repaired by fix 02e2aef when that fix is reverted) but there is no "
-                  "interleaving theorem for the reference counting; OS-level port reuse is not exercised (in-memory socket)")
+    design_ref = "4 (C11/C12), 12.1"
+    technique = ("Coq proof (reference-count invariant over all sequential histories, and over all interleavings of the read loop, listener Close, "
+                 "Accept, connection Close and the closer goroutine: socket closed only after the listener and every accepted connection were closed, "
+                 "and closed once they are) + differential check of the real Listen/Close code on an in-memory socket + trace validation of the real "
+                 "code under a controlled scheduler")
+    level_text = ("Coq theorems: (sequential model) over all histories of arrivals/Accept/Read/Conn.Close/listener Close the reference count equals "
+                  "(open listener) + queued + accepted-and-open connections, so the socket is closed exactly when the listener is closed and every "
+                  "accepted connection is closed; Accept fails after Close; Close is idempotent. (Interleaving model UdpListener/Conc.v, one step per "
+                  "synchronisation operation of getConn, listener.Close, Accept, Conn.Close and the closer goroutine, any number of Accepts and "
+                  "connection Closes) in every reachable state the WaitGroup counter is listener reference + queued + accepted-and-open + in flight, "
+                  "the socket is closed only after the listener dropped its reference and no accepted connection is open (C12_conc_never_earlier), no "
+                  "Accept succeeds after listener Close has finished and at quiescence the socket has been closed (C12_conc_closed_in_the_end). Tied "
+                  "to the code by differential histories in which every observation carries the socket's closed flag, and by trace validation: "
+                  "conn.go is instrumented from the working tree, goroutines are stepped one synchronisation operation at a time by seeded schedules "
+                  "with arrivals injected, the Coq model must follow every logged event and end in the same state, and the property is checked on "
+                  "the implementation itself (flags)")
+    level_note = ("partial: the interleaving model abstracts connections to counts (identities and the conns map are the sequential model's and C11's "
+                  "subject); pending Reads released by Close and 'no goroutine left' are checked on the implementation only; liveness in the "
+                  "quiescence form (fair scheduling trusted); OS-level port reuse is not exercised (in-memory socket); vrewrite/vsched/synctest trusted")
 
 
 class C17(VSchedCheck):
